@@ -15,9 +15,9 @@ def main(ck):
     pr = ck.proof('C05')
     q = ck.quick()
     res = []
-    res += CC.run_stream(ck, 'set-op', 120 if q else 3000, dict(allow={'setop'}, max_rows=10, nary_intersect=True), dict(depth=1))
+    res += CC.run_stream(ck, 'set-op', 120 if q else 3000, dict(allow={'setop'}, max_rows=10, nary_intersect=True, shuffle_decl=True), dict(depth=1))
     res += CC.run_stream(ck, 'set-op-nested', 80 if q else 2500, dict(allow={'setop'} | OPERAND, max_rows=10), dict())
-    res += CC.run_stream(ck, 'set-op-flat', 100 if q else 2500, dict(allow={'setop'} | OPERAND, flat=True, max_rows=10), dict())
+    res += CC.run_stream(ck, 'set-op-flat', 100 if q else 2500, dict(allow={'setop'} | OPERAND, flat=True, max_rows=10, shuffle_decl=True), dict())
     CC.report(ck, res)
     ck.cov['rule'] = ('case = (script, input data); non-trivial = model and engine agree on a non-empty result; distinct by (script, data)')
     if not pr['ok'] and not ck.viol:
